@@ -505,6 +505,136 @@ def F31():
             res[label] = type(e).__name__
     return res.get("64+00") is True or res.get("64+0000") is True, "key-path verify_input by signature encoding: %s" % res
 
+def _c11_wallet():
+    from buidl.hd import HDPrivateKey, HDPublicKey
+    from buidl.psbt import NamedHDPublicKey
+    roots = [HDPrivateKey.from_mnemonic(("%s " % w) * 11 + ("about" if w == "abandon" else w), network="testnet") for w in ("action", "agent", "abandon")]
+    acct = "m/48'/1'/0'/2'"
+    hdmap = {r.fingerprint().hex(): HDPublicKey.parse(r.traverse(acct).xpub()) for r in roots}
+    foreign = HDPrivateKey.from_mnemonic("zoo " * 11 + "wrong", network="testnet")
+    nk = lambda r, p: NamedHDPublicKey.from_hd_priv(r, p).point
+    ms = lambda cls, m, secs: cls([0x50 + m] + sorted(secs) + [0x50 + len(secs), 0xAE])
+    return roots, acct, hdmap, foreign, nk, ms
+
+def F32():
+    """legacy p2sh multisig input handed over through a witness UTXO: foreign redeem script, the wallet's own key derivations"""
+    from buidl.psbt import PSBT, PSBTIn, PSBTOut
+    from buidl.script import WitnessScript, RedeemScript, P2WSHScriptPubKey, P2SHScriptPubKey
+    from buidl.tx import Tx, TxIn, TxOut
+    roots, acct, hdmap, foreign, nk, ms = _c11_wallet()
+    in_keys = [nk(r, acct + "/0/0") for r in roots]
+    evil = ms(RedeemScript, 2, [foreign.traverse("m/%d" % i).pub.sec() for i in range(3)])
+    prev_out = TxOut(100000, P2SHScriptPubKey(evil.hash160()))
+    tx_in = TxIn(bytes.fromhex("44" * 32), 0)
+    tx_in._value, tx_in._script_pubkey = prev_out.amount, prev_out.script_pubkey
+    out = TxOut(99000, P2WSHScriptPubKey(ms(WitnessScript, 1, [foreign.traverse("m/7").pub.sec()]).sha256()))
+    tx = Tx(1, [tx_in], [out], 0, network="testnet", segwit=False)
+    try:
+        pin = PSBTIn(tx_in, prev_out=prev_out, redeem_script=evil, named_pubs={k.sec(): k for k in in_keys})
+        p_ = PSBT(tx, [pin], [PSBTOut(out)], network="testnet")
+        p_ = PSBT.parse_base64(p_.serialize_base64(), network="testnet")
+        p_.describe_basic_multisig(hdpubkey_map=hdmap)
+    except Exception as e:
+        return False, "rejected: %s %s" % (type(e).__name__, str(e)[:60])
+    return True, "input whose redeem script holds none of the named pubkeys is summarised"
+
+def F33():
+    """p2wsh input with both UTXO records: previous transaction says 100000 sats, witness UTXO says 5000000"""
+    from buidl.helper import serialize_key_value
+    from buidl.psbt import PSBT, PSBTIn, PSBTOut
+    from buidl.script import WitnessScript, P2WSHScriptPubKey
+    from buidl.tx import Tx, TxIn, TxOut
+    roots, acct, hdmap, foreign, nk, ms = _c11_wallet()
+    in_keys = [nk(r, acct + "/0/0") for r in roots]
+    ws = ms(WitnessScript, 2, [k.sec() for k in in_keys])
+    spk = P2WSHScriptPubKey(ws.sha256())
+    funding = Tx(1, [TxIn(bytes.fromhex("22" * 32), 3)], [TxOut(100000, spk)], 0, network="testnet", segwit=False)
+    tx_in = TxIn(funding.hash(), 0)
+    out = TxOut(99000, P2WSHScriptPubKey(ms(WitnessScript, 1, [foreign.traverse("m/7").pub.sec()]).sha256()))
+    tx = Tx(2, [tx_in], [out], 0, network="testnet", segwit=True)
+    pin = PSBTIn(tx_in, prev_tx=funding, witness_script=None, named_pubs={})
+    raw = PSBT(tx, [pin], [PSBTOut(out)], network="testnet").serialize()
+    nw = serialize_key_value(b"\x00", funding.serialize())
+    at = raw.index(nw) + len(nw)
+    extra = serialize_key_value(b"\x01", TxOut(5000000, spk).serialize()) + serialize_key_value(b"\x05", ws.raw_serialize())
+    for k in in_keys:
+        extra += k.serialize(b"\x06")
+    raw = raw[:at] + extra + raw[at:]
+    try:
+        d = PSBT.parse(BytesIO(raw), network="testnet").describe_basic_multisig(hdpubkey_map=hdmap)
+    except Exception as e:
+        return False, "rejected: %s %s" % (type(e).__name__, str(e)[:70])
+    return d["total_input_sats"] != 100000, "summarised with total_input_sats=%s fee=%s (previous transaction pays 100000)" % (d["total_input_sats"], d["tx_fee_sats"])
+
+def F34():
+    """output OP_1 <sha256(change witness script)> carrying the wallet's p2wsh change metadata"""
+    from buidl.psbt import PSBT, PSBTIn, PSBTOut
+    from buidl.script import WitnessScript, P2WSHScriptPubKey, P2TRScriptPubKey
+    from buidl.tx import Tx, TxIn, TxOut
+    roots, acct, hdmap, foreign, nk, ms = _c11_wallet()
+    in_keys = [nk(r, acct + "/0/0") for r in roots]
+    in_ws = ms(WitnessScript, 2, [k.sec() for k in in_keys])
+    prev_out = TxOut(100000, P2WSHScriptPubKey(in_ws.sha256()))
+    tx_in = TxIn(bytes.fromhex("55" * 32), 0)
+    tx_in._value, tx_in._script_pubkey = prev_out.amount, prev_out.script_pubkey
+    ch_keys = [nk(r, acct + "/1/0") for r in roots]
+    ch_ws = ms(WitnessScript, 2, [k.sec() for k in ch_keys])
+    out = TxOut(99000, P2TRScriptPubKey(ch_ws.sha256()))
+    tx = Tx(2, [tx_in], [out], 0, network="testnet", segwit=True)
+    try:
+        pin = PSBTIn(tx_in, prev_out=prev_out, witness_script=in_ws, named_pubs={k.sec(): k for k in in_keys})
+        po = PSBTOut(out, witness_script=ch_ws, named_pubs={k.sec(): k for k in ch_keys})
+        p_ = PSBT(tx, [pin], [po], network="testnet")
+        p_ = PSBT.parse_base64(p_.serialize_base64(), network="testnet")
+        d = p_.describe_basic_multisig(hdpubkey_map=hdmap)
+    except Exception as e:
+        return False, "rejected: %s %s" % (type(e).__name__, str(e)[:60])
+    o = d["outputs_desc"][0]
+    return o["is_change"] is True, "taproot output %s... is_change=%s" % (o["addr"][:14], o["is_change"])
+
+def F35():
+    """p2sh-p2wpkh input, scriptSig `<junk> <redeem script>`, empty witness"""
+    from buidl.ecc import PrivateKey
+    from buidl.helper import hash160
+    from buidl.script import Script, RedeemScript, P2SHScriptPubKey, P2WPKHScriptPubKey
+    from buidl.tx import Tx, TxIn, TxOut
+    from buidl.witness import Witness
+    import contextlib, io
+    h160 = PrivateKey(12345).point.hash160()
+    redeem = RedeemScript([0, h160])
+    spk = P2SHScriptPubKey(hash160(redeem.raw_serialize()))
+    tx_in = TxIn(bytes.fromhex("11" * 32), 0)
+    tx_in._value, tx_in._script_pubkey = 100000, spk
+    tx = Tx(2, [tx_in], [TxOut(90000, P2WPKHScriptPubKey(h160))], 0, network="testnet", segwit=True)
+    tx_in.script_sig = Script([b"junk", redeem.raw_serialize()])
+    tx_in.witness = Witness()
+    try:
+        with contextlib.redirect_stdout(io.StringIO()):
+            r = tx.verify_input(0)
+    except Exception as e:
+        r = type(e).__name__
+    return r is True, "verify_input without any signature -> %s" % r
+
+def K3():
+    """p2wsh input built with both UTXO records: serialise, then parse the result"""
+    from buidl.psbt import PSBT, PSBTIn, PSBTOut
+    from buidl.script import WitnessScript, P2WSHScriptPubKey, P2WPKHScriptPubKey
+    from buidl.tx import Tx, TxIn, TxOut
+    roots, acct, hdmap, foreign, nk, ms = _c11_wallet()
+    keys = [nk(roots[0], acct + "/0/%d" % i) for i in range(2)]
+    ws = ms(WitnessScript, 1, [k.sec() for k in keys])
+    spk = P2WSHScriptPubKey(ws.sha256())
+    funding = Tx(1, [TxIn(bytes.fromhex("22" * 32), 3)], [TxOut(100000, spk)], 0, network="testnet", segwit=False)
+    tx_in = TxIn(funding.hash(), 0)
+    tx = Tx(2, [tx_in], [TxOut(99000, P2WPKHScriptPubKey(bytes(20)))], 0, network="testnet", segwit=True)
+    pin = PSBTIn(tx_in, prev_tx=funding, prev_out=funding.tx_outs[0], witness_script=ws, named_pubs={k.sec(): k for k in keys})
+    raw = PSBT(tx, [pin], [PSBTOut(tx.tx_outs[0])], network="testnet").serialize()
+    try:
+        q = PSBT.parse(BytesIO(raw), network="testnet")
+    except Exception as e:
+        return True, "the witness UTXO record is dropped on serialisation and the result no longer parses: %s" % str(e)[:60]
+    return q.serialize() != raw, "round trip %s" % ("differs" if q.serialize() != raw else "identical")
+
 def K1():
     from buidl.op import op_2rot
     st = [b"1", b"2", b"3", b"4", b"5", b"6"]
